@@ -22,6 +22,8 @@ Reads, from the working tree of /repo (comments stripped),
 and writes them as plain data.  What the data must satisfy is stated and re-proved on every
 run in coq/maxi/C07.v (C07_source_dispatch_table, C07_source_lane_tables).
 
+Local variable names are not interpreted (registers are numbered by the order of their
+declarations, pointer / array names are arbitrary), so renaming or reformatting is tolerated.
 Anything that does not have the expected shape makes `run()` return ok=False: the check
 treats the obligation as broken (no crash) and keeps the previous file.
 """
@@ -114,10 +116,10 @@ def _methods(body):
 def _target(text, what):
     """classify a call expression: backend wrapper or the generic default"""
     t = " ".join(text.split())
-    m = re.search(r"\b(Avx2|Sse2|Neon)\s*::\s*(\w+)\s*\(\s*scores\s*\)", t)
+    m = re.search(r"\b(Avx2|Sse2|Neon)\s*::\s*(\w+)\s*\(\s*\w+\s*\)", t)
     if m:
         return (m.group(1), m.group(2))
-    m = re.search(r"<\s*Generic\s+as\s+Maximum\s*<[^()]*>\s*>\s*::\s*(\w+)\s*\(\s*&\s*Generic\s*,\s*scores\s*\)", t)
+    m = re.search(r"<\s*Generic\s+as\s+Maximum\s*<[^()]*>\s*>\s*::\s*(\w+)\s*\(\s*&\s*Generic\s*,\s*\w+\s*\)", t)
     if m:
         return ("Generic", m.group(1))
     raise ParseError("%s: unrecognised call `%s`" % (what, t[:120]))
@@ -136,7 +138,7 @@ def parse_wrappers():
             if not m:
                 raise ParseError("%s::%s not found" % (backend, n))
             body = _function_body(impl[m.start():], n)
-            calls = re.findall(r"\bunsafe\s*\{\s*(\w+)\s*(?:::\s*<[^>]*>\s*)?\(\s*scores\s*\)\s*\}", body)
+            calls = re.findall(r"\bunsafe\s*\{\s*(\w+)\s*(?:::\s*<[^>]*>\s*)?\(\s*\w+\s*\)\s*\}", body)
             if len(calls) != 1 or calls[0] not in KERNEL_IDS:
                 raise ParseError("%s::%s does not call one known kernel: %s" % (backend, n, calls))
             out[(backend, n)] = calls[0]
@@ -210,85 +212,86 @@ def parse_pipelines(wrappers):
     return table
 
 
-def _reg_offsets(body, pat, what, count):
-    """[(register number, element offset)] in program order"""
-    out = []
-    for m in re.finditer(pat, body):
-        off = m.group("off")
-        out.append((int(m.group("reg")), _num(off) if off else 0))
-    if len(out) != count:
-        raise ParseError("%s: expected %d, found %d" % (what, count, len(out)))
-    return out
+ID = r"[A-Za-z_]\w*"
+PTR = r"(?:%s)\s*(?:\.\s*add\s*\(\s*(?P<off>\w+)\s*\))?\s*(?:as\s*\*(?:const|mut)\s*_\s*)?" % ID
+
+
+def _decls(body, pat, what, count):
+    """matches of `pat` (a regex with named group `name`, optionally `off` / `val`) in program
+    order; local variable names are not interpreted: registers are numbered by declaration order"""
+    ms = list(re.finditer(pat, body))
+    if len(ms) != count:
+        raise ParseError("%s: expected %d, found %d" % (what, count, len(ms)))
+    return ms
+
+
+def _offs(ms):
+    return [(k + 1, _num(m.group("off")) if m.group("off") else 0) for k, m in enumerate(ms)]
+
+
+def _index(names, n, what):
+    if n not in names:
+        raise ParseError("%s: `%s` is not one of the registers %s" % (what, n, names))
+    return names.index(n) + 1
 
 
 def parse_kernels():
     avx2 = _strip_comments(open(os.path.join(SRC, "pli/platform/avx2.rs")).read())
     sse2 = _strip_comments(open(os.path.join(SRC, "pli/platform/sse2.rs")).read())
     k = {}
-    # --- argmax_u8_avx2: column reconstruction
+    let_mut = r"\blet\s+mut\s+(?P<name>%s)\s*=\s*" % ID
+    let_imm = r"\blet\s+(?!mut\b)(?P<name>%s)\s*=\s*" % ID
+    arr_store = (r"\(\s*(?:%s)\s*(?:\[\s*(?P<off>\w+)\s*\.\.\s*\])?\s*\.\s*as_mut_ptr\s*\(\s*\)\s*as\s*\*mut\s*_\s*,"
+                 r"\s*(?P<name>%s)\s*\)") % (ID, ID)
+
+    # --- argmax_u8_avx2
     b = _function_body(avx2, "argmax_u8_avx2")
+    pregs = [m.group("name") for m in _decls(b, let_mut + r"_mm256_setzero_si256\s*\(\s*\)", "argmax_u8_avx2 row-index registers", 2)]
+    sinit = _decls(b, let_mut + r"_mm256_set1_epi16\s*\(\s*(?P<val>-?\w+)\s*\)", "argmax_u8_avx2 running maxima", 2)
+    k["u8_s_init"] = [(i + 1, _num(m.group("val"))) for i, m in enumerate(sinit)]
+    ones = _decls(b, let_imm + r"_mm256_set1_epi16\s*\(\s*(?P<val>-?\w+)\s*\)", "argmax_u8_avx2 constant", 1)[0]
+    k["u8_ones"] = _num(ones.group("val"))
+    if len(re.findall(r"_mm256_sub_epi16\s*\(\s*%s\s*,\s*%s\s*\)" % (ID, re.escape(ones.group("name"))), b)) != 2:
+        raise ParseError("argmax_u8_avx2: expected two `_mm256_sub_epi16(r_k, %s)`" % ones.group("name"))
     perms = {}
-    for m in re.finditer(r"\blet\s+(\w+)\s*=\s*_mm256_permute2x128_si256\s*\(\s*p(\d)\s*,\s*p(\d)\s*,\s*(\w+)\s*\)", b):
-        perms[m.group(1)] = (int(m.group(2)), int(m.group(3)), _num(m.group(4)))
-    stores = []
-    for m in re.finditer(r"_mm256_storeu_si256\s*\(\s*x\s*(?:\[\s*(\w+)\s*\.\.\s*\])?\s*\.\s*as_mut_ptr\s*\(\s*\)\s*as\s*\*mut\s*_\s*,\s*(\w+)\s*\)", b):
-        stores.append((_num(m.group(1)) if m.group(1) else 0, m.group(2)))
-    if len(stores) != 2:
-        raise ParseError("argmax_u8_avx2: expected 2 stores into x, found %d" % len(stores))
+    for m in re.finditer(let_imm + r"_mm256_permute2x128_si256\s*\(\s*(?P<a>%s)\s*,\s*(?P<b>%s)\s*,\s*(?P<imm>\w+)\s*\)" % (ID, ID), b):
+        perms[m.group("name")] = (_index(pregs, m.group("a"), "argmax_u8_avx2 permute"),
+                                  _index(pregs, m.group("b"), "argmax_u8_avx2 permute"), _num(m.group("imm")))
     q = []
-    for off, reg in stores:
-        if reg in perms:
-            q.append(perms[reg] + (off,))
-        elif re.fullmatch(r"p\d", reg):
-            # a register stored without permutation: identity selection of its two halves
-            raise ParseError("argmax_u8_avx2: register %s stored without restoring the column order" % reg)
-        else:
-            raise ParseError("argmax_u8_avx2: store of unknown value %s" % reg)
+    for m in _decls(b, r"_mm256_storeu_si256\s*" + arr_store, "argmax_u8_avx2 stores", 2):
+        reg = m.group("name")
+        if reg not in perms:
+            raise ParseError("argmax_u8_avx2: `%s` is stored without restoring the column order" % reg)
+        q.append(perms[reg] + (_num(m.group("off")) if m.group("off") else 0,))
     k["u8_q"] = q
+
     # --- argmax_f32_avx2
     b = _function_body(avx2, "argmax_f32_avx2")
-    load = r"_mm256_load_ps\s*\(\s*dataptr\s*(?:\.\s*add\s*\(\s*(?P<off>\w+)\s*\))?\s*(?:as\s*\*const\s*_\s*)?\)"
-    k["af_init"] = _reg_offsets(b, r"\blet\s+mut\s+s(?P<reg>\d)\s*=\s*" + load, "argmax_f32_avx2 initial loads", 4)
-    k["af_rows"] = _reg_offsets(b, r"\blet\s+r(?P<reg>\d)\s*=\s*" + load, "argmax_f32_avx2 row loads", 4)
-    k["af_stores"] = _reg_offsets(
-        b, r"_mm256_storeu_si256\s*\(\s*x\s*\[\s*(?P<off>\w+)\s*\.\.\s*\]\s*\.\s*as_mut_ptr\s*\(\s*\)\s*as\s*\*mut\s*_\s*,\s*p(?P<reg>\d)\s*\)",
-        "argmax_f32_avx2 stores", 4)
+    load = r"_mm256_load_ps\s*\(\s*" + PTR + r"\)"
+    pregs = [m.group("name") for m in _decls(b, let_mut + r"_mm256_setzero_si256\s*\(\s*\)", "argmax_f32_avx2 row-index registers", 4)]
+    k["af_init"] = _offs(_decls(b, let_mut + load, "argmax_f32_avx2 initial loads", 4))
+    k["af_rows"] = _offs(_decls(b, let_imm + load, "argmax_f32_avx2 row loads", 4))
+    st = _decls(b, r"_mm256_storeu_si256\s*" + arr_store, "argmax_f32_avx2 stores", 4)
+    k["af_stores"] = [(_index(pregs, m.group("name"), "argmax_f32_avx2 store"), _num(m.group("off")) if m.group("off") else 0) for m in st]
+
     # --- max_f32_avx2
     b = _function_body(avx2, "max_f32_avx2")
-    k["mf_init"] = _reg_offsets(b, r"\blet\s+mut\s+m(?P<reg>\d)\s*=\s*" + load, "max_f32_avx2 initial loads", 4)
-    k["mf_rows"] = _reg_offsets(b, r"\blet\s+r(?P<reg>\d)\s*=\s*" + load, "max_f32_avx2 row loads", 4)
+    k["mf_init"] = _offs(_decls(b, let_mut + load, "max_f32_avx2 initial loads", 4))
+    k["mf_rows"] = _offs(_decls(b, let_imm + load, "max_f32_avx2 row loads", 4))
+
+    # --- max_u8_avx2
+    b = _function_body(avx2, "max_u8_avx2")
+    _decls(b, let_mut + r"_mm256_setzero_si256\s*\(\s*\)", "max_u8_avx2 accumulator", 1)
+
     # --- argmax_sse2
     b = _function_body(sse2, "argmax_sse2")
-    load4 = r"_mm_load_ps\s*\(\s*dataptr\s*(?:\.\s*add\s*\(\s*(?P<off>\w+)\s*\))?\s*\)"
-    k["as_rows"] = _reg_offsets(b, r"\blet\s+r(?P<reg>\d)\s*=\s*" + load4, "argmax_sse2 row loads", 4)
-    k["as_stores"] = _reg_offsets(
-        b, r"_mm_storeu_si128\s*\(\s*outptr\s*(?:\.\s*add\s*\(\s*(?P<off>\w+)\s*\))?\s*as\s*\*mut\s*_\s*,\s*_mm_castps_si128\s*\(\s*p(?P<reg>\d)\s*\)\s*\)",
-        "argmax_sse2 stores", 4)
-    # --- initial accumulators
-    def inits(body, pat, what, count):
-        got = [(int(m.group("reg")) if m.groupdict().get("reg") else 0, m.group("val")) for m in re.finditer(pat, body)]
-        if len(got) != count:
-            raise ParseError("%s: expected %d initialisations, found %d" % (what, count, len(got)))
-        return got
-    b = _function_body(avx2, "argmax_u8_avx2")
-    s_init = inits(b, r"\blet\s+mut\s+s(?P<reg>\d)\s*=\s*_mm256_set1_epi16\s*\(\s*(?P<val>-?\w+)\s*\)", "argmax_u8_avx2 s", 2)
-    k["u8_s_init"] = [(r, _num(v)) for r, v in s_init]
-    inits(b, r"\blet\s+mut\s+p(?P<reg>\d)\s*=\s*_mm256_(?P<val>setzero)_si256\s*\(\s*\)", "argmax_u8_avx2 p", 2)
-    m = re.search(r"\blet\s+ones\s*=\s*_mm256_set1_epi16\s*\(\s*(-?\w+)\s*\)", b)
-    if not m:
-        raise ParseError("argmax_u8_avx2: `ones` not found")
-    k["u8_ones"] = _num(m.group(1))
-    if len(re.findall(r"_mm256_sub_epi16\s*\(\s*r\d\s*,\s*ones\s*\)", b)) != 2:
-        raise ParseError("argmax_u8_avx2: expected two `_mm256_sub_epi16(r_k, ones)`")
-    b = _function_body(avx2, "max_u8_avx2")
-    inits(b, r"\blet\s+mut\s+m\s*=\s*_mm256_(?P<val>setzero)_si256\s*\(\s*\)", "max_u8_avx2 m", 1)
-    b = _function_body(avx2, "argmax_f32_avx2")
-    inits(b, r"\blet\s+mut\s+p(?P<reg>\d)\s*=\s*_mm256_(?P<val>setzero)_si256\s*\(\s*\)", "argmax_f32_avx2 p", 4)
-    b = _function_body(sse2, "argmax_sse2")
-    if not re.search(r"\blet\s+mut\s+best_score\s*=\s*-\s*f32\s*::\s*INFINITY\s*;", b):
-        raise ParseError("argmax_sse2: best_score is not initialised with -f32::INFINITY")
-    inits(b, r"\blet\s+mut\s+s(?P<reg>\d)\s*=\s*_mm_set1_ps\s*\(\s*(?P<val>best_score)\s*\)", "argmax_sse2 s", 4)
-    inits(b, r"\blet\s+mut\s+p(?P<reg>\d)\s*=\s*_mm_(?P<val>setzero)_ps\s*\(\s*\)", "argmax_sse2 p", 4)
+    best = _decls(b, let_mut + r"-\s*f32\s*::\s*INFINITY\s*;", "argmax_sse2 best score (-f32::INFINITY)", 1)[0].group("name")
+    _decls(b, let_mut + r"_mm_set1_ps\s*\(\s*%s\s*\)" % re.escape(best), "argmax_sse2 running maxima", 4)
+    pregs = [m.group("name") for m in _decls(b, let_mut + r"_mm_setzero_ps\s*\(\s*\)", "argmax_sse2 row-index registers", 4)]
+    k["as_rows"] = _offs(_decls(b, let_imm + r"_mm_load_ps\s*\(\s*" + PTR + r"\)", "argmax_sse2 row loads", 4))
+    st = _decls(b, r"_mm_storeu_si128\s*\(\s*" + PTR + r",\s*_mm_castps_si128\s*\(\s*(?P<name>%s)\s*\)\s*\)" % ID,
+                "argmax_sse2 stores", 4)
+    k["as_stores"] = [(_index(pregs, m.group("name"), "argmax_sse2 store"), _num(m.group("off")) if m.group("off") else 0) for m in st]
     return k
 
 
